@@ -25,9 +25,11 @@
  */
 
 #include <crypt.h>
+#include <errno.h>
 #include <fcntl.h>
 #include <limits.h>
 #include <stddef.h>
+#include <stdio.h>
 #include <stdlib.h>
 #include <string.h>
 #include <sys/mman.h>
@@ -50,7 +52,7 @@
 
 static cJSON *user_data = NULL;
 static const cJSON *users = NULL;
-static int password_file = -1;
+static char *password_file_name = NULL;
 
 struct crypt_method {
 	const char *prefix;        /* salt prefix */
@@ -141,9 +143,9 @@ int load_passwd_data(const char *passwd_file)
 	}
 
 	munmap(p, size);
-	free(rp);
+	close(fd);
 
-	password_file = fd;
+	password_file_name = rp;
 	return 0;
 
 add_call_groups_failed:
@@ -172,8 +174,9 @@ void free_passwd_data(void)
 
 	free_groups();
 
-	if (password_file != -1) {
-		close(password_file);
+	if (password_file_name != NULL) {
+		free(password_file_name);
+		password_file_name = NULL;
 	}
 }
 
@@ -269,33 +272,91 @@ static bool is_admin(const char *current_user)
 	return false;
 }
 
-static int write_user_data()
+static int write_all(int fd, const char *data, size_t to_write)
 {
-	if (ftruncate(password_file, 0) < 0) {
-		log_err("Could not truncate password file\n");
+	while (to_write > 0) {
+		cjet_ssize_t written = write(fd, data, to_write);
+		if (written < 0) {
+			if (errno == EINTR) {
+				continue;
+			}
+			return -1;
+		}
+		data += written;
+		to_write -= (size_t)written;
+	}
+	return 0;
+}
+
+/*
+ * The new content is written to a temporary file in the same directory
+ * which then atomically replaces the password file. So the password
+ * file always contains either the complete old or the complete new data.
+ */
+static int write_user_data(void)
+{
+	static const char suffix[] = ".XXXXXX";
+	int ret = -1;
+
+	if (password_file_name == NULL) {
 		return -1;
 	}
 
-	lseek(password_file, 0, SEEK_SET);
 	char *data = cJSON_Print(user_data);
 	if (data == NULL) {
 		log_err("Could not serialize user data!");
 		return -1;
 	}
 
-	cjet_ssize_t written = 0;
-	cjet_ssize_t to_write = strlen(data);
-	while (written < to_write) {
-		written = write(password_file, data, to_write);
-		if (written < 0) {
-			log_err("Could not write password file\n");
-			return -1;
-		}
-		to_write -= written;
+	size_t tmp_name_size = strlen(password_file_name) + sizeof(suffix);
+	char *tmp_name = cjet_malloc(tmp_name_size);
+	if (tmp_name == NULL) {
+		goto alloc_name_failed;
+	}
+	snprintf(tmp_name, tmp_name_size, "%s%s", password_file_name, suffix);
+
+	int fd = mkstemp(tmp_name);
+	if (fd < 0) {
+		log_err("Could not create temporary password file\n");
+		goto mkstemp_failed;
 	}
 
+	struct stat st;
+	if ((stat(password_file_name, &st) == 0) && (fchmod(fd, st.st_mode & 07777) < 0)) {
+		log_err("Could not set mode of temporary password file\n");
+		goto write_failed;
+	}
+
+	if ((write_all(fd, data, strlen(data)) < 0) || (fsync(fd) < 0)) {
+		log_err("Could not write password file\n");
+		goto write_failed;
+	}
+
+	if (close(fd) < 0) {
+		fd = -1;
+		goto write_failed;
+	}
+	fd = -1;
+
+	if (rename(tmp_name, password_file_name) < 0) {
+		log_err("Could not replace password file\n");
+		goto write_failed;
+	}
+
+	ret = 0;
+	goto out;
+
+write_failed:
+	if (fd >= 0) {
+		close(fd);
+	}
+	unlink(tmp_name);
+out:
+mkstemp_failed:
+	cjet_free(tmp_name);
+alloc_name_failed:
 	cjet_free(data);
-	return 0;
+	return ret;
 }
 
 static void fill_salt(char *buf, unsigned int salt_len)
